@@ -1,0 +1,23 @@
+//go:build verif
+// +build verif
+
+package routing
+
+import "sync/atomic"
+
+// Verification hook (build tag verif): counts the exit paths of calcOutflow.
+
+var verifRoutingPathCounts [8]uint64
+
+func verifRoutingPath(n int) {
+	atomic.AddUint64(&verifRoutingPathCounts[n], 1)
+}
+
+// VerifRoutingPathCounts returns and resets the per-exit-path counters.
+func VerifRoutingPathCounts() [8]uint64 {
+	var r [8]uint64
+	for i := range r {
+		r[i] = atomic.SwapUint64(&verifRoutingPathCounts[i], 0)
+	}
+	return r
+}
